@@ -30,7 +30,7 @@ class RegModel:
         if self.has_r and x['r'] == 1:
             return self.rv
         if (not self.has_e) or x['e'] != 0:
-            return x['d']
+            return x['d'] & M(self.w)
         return s
 
 
